@@ -5,6 +5,7 @@ package main
 import (
 	"bytes"
 	"fmt"
+	"sort"
 	"strconv"
 	"strings"
 )
@@ -24,7 +25,7 @@ func init() {
 	Register(&Prop{
 		ID: "C02",
 		Rule: "pipelines of 1..4 requests (HTTP/1.1, or HTTP/1.0 with keep-alive) whose bodies (Content-Length, chunked, or chunked with a malformed chunk terminator; sizes around 0, the 8 KiB prefetch and MaxRequestBodySize) consist of well-formed 'GET /smuggled' requests, " +
-			"handlers reading none / k / all of the body (streaming on and off), taking it through Request.Body(), dropping it with ResetBody / SetBody, going back to it after EOF (another Read, PostArgs, Body), resetting or rewriting the framing fields of the request header, and ending normally, with an error status, or through TimeoutError / TimeoutErrorWithResponse, Expect: 100-continue accepted or rejected by ContinueHandler or ExpectHandler, random arrival chunking, followed by a sentinel request; " +
+			"handlers reading none / k / all of the body (streaming on and off), taking it through Request.Body(), dropping it with ResetBody / SetBody, going back to it after EOF (another Read, PostArgs, Body), resetting or rewriting the framing fields of the request header, and ending normally, with an error status, or through TimeoutError / TimeoutErrorWithResponse, Expect: 100-continue accepted or rejected by ContinueHandler or ExpectHandler, random arrival chunking and heads delivered in reads of their own, followed by a sentinel request; " +
 			"monitor: every final response answers a dispatched request or is the one legitimate refusal, and the dispatched targets are a prefix of the planned ones (a body byte parsed as a request shows up as /smuggled or as garbage); non-trivial = some request carries a body; distinct = distinct input",
 		Parallel: true,
 		Build: func(kind string, a [][]byte) *Case {
@@ -32,6 +33,7 @@ func init() {
 			// a[1..]: per request "method|bodysize|framing(cl,ch,chx)|rb|expect(0/1)|handler-ending|version(\"\" = 1.1, 10 = HTTP/1.0 keep-alive)"
 			var stream bytes.Buffer
 			var planned []string
+			var headEnds []int // offset just past every request head: "H" in the cuts argument delivers every head in a read of its own
 			var rejectable []bool
 			var bodies [][]byte
 			// model tie: for plainly streamed fixed-length bodies the Lean model of requestStream + the server's reuse
@@ -97,6 +99,7 @@ func init() {
 				}
 				if f[2] == "ch" || f[2] == "chx" {
 					stream.WriteString("Transfer-Encoding: chunked\r\n\r\n")
+					headEnds = append(headEnds, stream.Len())
 					rest := body
 					first := true
 					for len(rest) > 0 {
@@ -117,6 +120,7 @@ func init() {
 					}
 				} else {
 					fmt.Fprintf(&stream, "Content-Length: %d\r\n\r\n", size)
+					headEnds = append(headEnds, stream.Len())
 					stream.Write(body)
 				}
 			}
@@ -126,9 +130,14 @@ func init() {
 			stream.WriteString("GET /sentinel HTTP/1.1\r\nHost: h\r\n\r\n")
 			var cuts []int
 			for _, f := range strings.Fields(string(a[len(a)-1])) {
+				if f == "H" {
+					cuts = append(cuts, headEnds...)
+					continue
+				}
 				n, _ := strconv.Atoi(f)
 				cuts = append(cuts, n*stream.Len()/1000)
 			}
+			sort.Ints(cuts)
 			res := runConn(cfg, splitChunks(stream.Bytes(), cuts))
 			var got []string
 			for _, d := range res.Dispatches {
@@ -224,6 +233,9 @@ func init() {
 						cs = append(cs, strconv.Itoa(r.Intn(1000)))
 					}
 					cuts = strings.Join(sortedIntStrings(cs), " ")
+				}
+				if r.Chance(25) {
+					cuts = strings.TrimSpace("H " + cuts) // every head in a read of its own, the body with whatever follows
 				}
 				args = append(args, B(cuts))
 				emit("pipeline", args...)
